@@ -24,7 +24,8 @@ from pysym.wire import to_wire, from_wire
 from harness import repo, c10
 
 ID = 'C18'
-KINDS = {'sign', 'json.load', 'from_private_bytes', 'create_signature', 'export_pubkey'}
+KINDS = {'sign', 'json.load', 'json.dumps', 'from_private_bytes', 'create_signature', 'export_pubkey'}
+SIGN_OR_SERIALISE = {'sign', 'json.dumps', 'create_signature'}
 
 
 def judge_path(eng, tp, fs, out, target, initial):
@@ -41,10 +42,13 @@ def judge_path(eng, tp, fs, out, target, initial):
             bad.append(f'a signature is computed / data is serialised ({e["kind"]}) after the target file was opened for writing')
     cur = fs.files.get(target)
     unchanged = cur is initial
+    fault_what = next((e['what'] for e in eng.events if e['kind'] == 'fault'), None)
     if not is_ret(out):
         reach.append('failed before output' if first_trunc is None else 'failed during output')
         if first_trunc is None and not unchanged:
             bad.append('the call failed before opening its output, yet the file content changed')
+        elif not unchanged and fault_what in SIGN_OR_SERIALISE:
+            bad.append('signing / serialisation failed after the target file had been opened for writing: a truncated or partial file is left behind')
     else:
         reach.append('succeeded')
     return bad, reach
@@ -105,6 +109,7 @@ def repodata_factory(ns, via_cli=False, max_fault=120, **kw):
             def mk(mm):
                 c = repo.mk_case(eng, tp, mm, fault_of(eng))
                 c['via_cli'] = via_cli
+                c['probe'] = any('after the target file was opened' in b for b in bad) and fault_of(eng) is None
                 if keytext is not None:
                     c['keytext'] = conc(mm, keytext)
                 return c
@@ -240,6 +245,30 @@ class Injector:
             self.undo.append((obj, attr, orig))
         if what == 'json.load':
             wrap(C, 'load')
+        elif what in ('json.dumps', 'json.dump'):
+            import json.encoder
+            orig_enc, orig_it = json.encoder.JSONEncoder.encode, json.encoder.JSONEncoder.iterencode
+            state = {'in': False}
+
+            def enc(self_, o):
+                inj.count += 1
+                if inj.count == occ:
+                    raise _Fault(f'injected at {what}')
+                state['in'] = True
+                try:
+                    return orig_enc(self_, o)
+                finally:
+                    state['in'] = False
+
+            def itenc(self_, o, _one_shot=False):
+                if not state['in']:
+                    inj.count += 1
+                    if inj.count == occ:
+                        raise _Fault(f'injected at {what}')
+                return orig_it(self_, o, _one_shot)
+            json.encoder.JSONEncoder.encode, json.encoder.JSONEncoder.iterencode = enc, itenc
+            self.undo.append((json.encoder.JSONEncoder, 'encode', orig_enc))
+            self.undo.append((json.encoder.JSONEncoder, 'iterencode', orig_it))
         elif what in ('sign', 'from_private_bytes'):
             CC.CRYPTO.install()
             if what == 'sign':
@@ -273,6 +302,16 @@ def concrete(case):
         files = {'repodata.json': data}
         if case.get('via_cli'):
             files['key.hex'] = case['keytext'].encode('utf-8', 'surrogatepass')
+        if case.get('probe'):
+            # ordering counterexample: find a serialisation call whose failure leaves a modified file behind
+            for k in range(1, 9):
+                c2 = dict(case, probe=False, fault=dict(what='json.dumps', occurrence=k))
+                o2 = concrete(c2)
+                if o2['outcome']['kind'] == 'exc' and o2['before'] != o2['after']:
+                    o2['probed_fault'] = c2['fault']
+                    return o2
+            c2 = dict(case, probe=False)
+            return concrete(c2)
         with CC.temp_files(files) as paths, CC.stdout_as(None):
             p = paths['repodata.json']
             if case.get('via_cli'):
@@ -339,6 +378,8 @@ def concrete(case):
 def agrees(case, obs):
     if 'outcome' not in obs:
         return False
+    if case.get('probe'):
+        return True
     p, oc = case.get('predicted'), obs['outcome']
     if p and p['kind'] == 'exc' and p.get('cls') == 'InjectedFault':
         return oc['kind'] == 'exc' and oc['cls'] == '_Fault'
@@ -350,8 +391,9 @@ def judge(case, obs):
         return None
     oc = obs['outcome']
     if oc['kind'] == 'exc' and obs['before'] != obs['after']:
+        ft = obs.get('probed_fault') or case.get('fault')
         return (f'{"sign-artifacts" if case.get("via_cli") else case["scenario"]} failed with {oc["cls"]}'
-                + (f' (fault injected at {case["fault"]["what"]})' if case.get('fault') else '') + ' and left a modified file behind: the operation is not all-or-nothing')
+                + (f' (fault injected at {ft["what"]}, occurrence {ft["occurrence"]})' if ft else '') + ' and left a modified file behind: the operation is not all-or-nothing')
     if case.get('via_cli') and oc['kind'] == 'ret':
         v = from_wire(oc['value'])
         if (v is None or v == 0) and obs['before'] == obs['after']:
